@@ -6,7 +6,7 @@
    (complex numbers are pairs of reals).  The gate theorems depend on the standard
    library's real-number axioms only; the tracker and cache theorems are closed. *)
 From Coq Require Import Reals List Arith Bool ZArith Permutation String.
-From QV Require Import Base.Sums C07.CMat C07.Ctrl C07.GatesGen C07.GateProofs C07.Model C07.Proofs C07.Mutators C07.Inventory C07.LightconeModel C07.Lightcone C07.RecordModel C07.Record.
+From QV Require Import Base.Sums C07.CMat C07.Ctrl C07.GatesGen C07.GateProofs C07.Model C07.Proofs C07.TrackerG C07.Mutators C07.Inventory C07.LightconeModel C07.Lightcone C07.RecordModel C07.Record.
 Import ListNotations.
 Close Scope R_scope.
 Open Scope nat_scope.
@@ -118,17 +118,24 @@ Proof. exact mctrl_unitary. Qed.
 Print Assumptions C07_controlled_gate_unitary.
 
 (* ---- (2) CircuitPermMPS: the qubit tracker ------------------------------------ *)
+(* perm_step_g is the complete step of _apply_gate (since /repo 34d08a81 + de0b2923): an
+   uncontrolled SWAP exchanges two entries (relabelling, no MPS operation), an uncontrolled
+   two-qubit gate does pop j / insert i+1 (committed after the gate succeeded), every other
+   gate - one / three qubits, any controlled gate - leaves the tracker alone; gate.qubits and
+   gate.controls are both mapped to physical sites. *)
 
 (* the `qubits` list stays a permutation of range(N) for every gate sequence *)
 Theorem C07_tracker_stays_permutation : forall N gates qs qs',
-  Permutation qs (seq 0 N) -> perm_run qs gates = Some qs' -> Permutation qs' (seq 0 N).
-Proof. exact perm_run_perm. Qed.
+  Permutation qs (seq 0 N) -> perm_run_g qs gates = Some qs' -> Permutation qs' (seq 0 N).
+Proof. exact perm_run_g_perm. Qed.
 Print Assumptions C07_tracker_stays_permutation.
 
-(* a gate on qubits of the register is never rejected by the tracker *)
+(* a gate on qubits of the register (a SWAP naming two of them) is never rejected by the tracker *)
 Theorem C07_tracker_accepts_register_gates : forall N qs g,
-  Permutation qs (seq 0 N) -> Forall (fun q => q < N) g -> exists r, perm_step qs g = Some r.
-Proof. exact perm_step_total. Qed.
+  Permutation qs (seq 0 N) -> Forall (fun q => q < N) (pg_qubits g) -> Forall (fun q => q < N) (pg_ctrl g) ->
+  (pg_swap g = true -> List.length (pg_qubits g) = 2) ->
+  exists r, perm_step_g qs g = Some r.
+Proof. exact perm_step_g_total. Qed.
 Print Assumptions C07_tracker_accepts_register_gates.
 
 (* logical qubit q sits at exactly one physical site, the one list.index reports *)
@@ -138,15 +145,17 @@ Theorem C07_tracker_locates_each_qubit : forall N qs q, Permutation qs (seq 0 N)
 Proof. exact tracker_locates. Qed.
 Print Assumptions C07_tracker_locates_each_qubit.
 
-(* refinement: run the tracker (pop j; insert i+1) and the MPS side
-   (gate_with_auto_swap(swap_back=False): adjacent swaps j-1, ..., i+1, then the
-   gate on final_gate_where) together from any duplicate-free start.  After every
-   gate the tracker equals the contents of the MPS sites, and the gate acted on
-   the sites holding its logical qubits, in the gate's qubit order - for every
-   gate sequence whose gates name pairwise different qubits. *)
+(* refinement: run the tracker and the MPS side together from any duplicate-free start
+   (contents = which logical qubit's state each site holds).  After every gate the tracker
+   equals the contents; an uncontrolled two-qubit gate goes through
+   gate_with_auto_swap(swap_back=False) (adjacent swaps j-1, ..., i+1, then the gate on
+   final_gate_where) and acts on the sites holding its two qubits in the gate's order; every
+   other non-SWAP gate acts on the sites holding its targets AND its controls; a SWAP moves
+   no site and afterwards each of its two qubits is located where the other one was - for
+   every gate sequence whose gates name pairwise different target qubits. *)
 Theorem C07_tracker_refines_mps_site_contents : forall gates tr,
-  NoDup tr -> Forall (@NoDup nat) gates -> sim_ok tr tr gates.
-Proof. exact sim_run_ok. Qed.
+  NoDup tr -> Forall (fun g => NoDup (pg_qubits g)) gates -> sim_ok_g tr tr gates.
+Proof. exact sim_run_g_ok. Qed.
 Print Assumptions C07_tracker_refines_mps_site_contents.
 
 (* ---- reverse light cone (get_reverse_lightcone_tags): data-flow soundness ------ *)
@@ -226,6 +235,10 @@ Print Assumptions C07_uncovered_mutator_gives_stale_hit.
 
 Example C07_examples :
   perm_trace [0; 1; 2; 3] [[0; 3]; [2]; [1; 2]; [3; 0]] = [[0; 3; 1; 2]; [0; 3; 1; 2]; [0; 3; 1; 2]; [0; 3; 1; 2]]
+  /\ perm_trace_g [0; 1; 2; 3] [{| pg_swap := false; pg_ctrl := []; pg_qubits := [0; 3] |};
+                                  {| pg_swap := true; pg_ctrl := []; pg_qubits := [0; 2] |};
+                                  {| pg_swap := false; pg_ctrl := [3]; pg_qubits := [1; 0] |}]
+     = [([0; 3; 1; 2], [0; 3], []); ([2; 3; 1; 0], [0; 3], []); ([2; 3; 1; 0], [2; 3], [1])]
   /\ perm_step [0; 1; 2; 3; 4] [4; 1] = Some ([0; 1; 4; 2; 3], [4; 1])
   /\ auto_swap [0; 1; 2; 3; 4] 4 1 = ([0; 1; 4; 2; 3], (2, 1))
   /\ lightcone_tags [LGate [0]; LGate [1; 2]; LSwap 0 1; LGate [2]; LIden; LGate [0; 3]] [0] = [1; 5]
